@@ -120,7 +120,17 @@ impl Exec {
             if let Some(inst) = self.gens.get_mut(&g) {
                 if let Some(j) = inst.jitter() {
                     let reads = j.drain_reads();
-                    ev.insert("reads".into(), Value::Array(reads.iter().map(|&x| u64j(x)).collect()));
+                    if name == "skip" {
+                        // very many collections: the number of readings and a digest of them instead of the list
+                        let mut h: u64 = 0xcbf29ce484222325;
+                        for &x in &reads {
+                            h = (h ^ x).wrapping_mul(0x100000001b3);
+                        }
+                        ev.insert("reads_n".into(), json!(reads.len()));
+                        ev.insert("reads_digest".into(), u64j(h));
+                    } else {
+                        ev.insert("reads".into(), Value::Array(reads.iter().map(|&x| u64j(x)).collect()));
+                    }
                 }
             }
         }
@@ -346,42 +356,62 @@ impl Exec {
                 let n = get_u64(op, "n");
                 let len = get_u64(op, "seed_len") as usize;
                 let outs = op.get("outputs").and_then(|v| v.as_u64()).unwrap_or(8);
-                let mut found: Vec<Value> = Vec::new();
-                for k in 0..n {
-                    if found.len() >= 4 {
-                        break;
-                    }
-                    let mut seed = vec![0u8; len];
-                    let kb = k.to_le_bytes();
-                    let m = len.min(8);
-                    seed[..m].copy_from_slice(&kb[..m]);
-                    for (stage, ctor) in [("from_seed", 0u8), ("seed_from_u64", 1u8), ("from_seed_spread", 2u8)] {
-                        let kind2 = kind.clone();
-                        let seed2: Vec<u8> = if ctor == 2 {
-                            // the counter spread over the whole seed with an LCG: dense seeds
-                            let mut x = k.wrapping_mul(0x9E3779B97F4A7C15) | 1;
-                            (0..len).map(|_| { x = x.wrapping_mul(6364136223846793005).wrapping_add(1442695040888963407); (x >> 56) as u8 }).collect()
-                        } else {
-                            seed.clone()
-                        };
-                        let r = catch_unwind(AssertUnwindSafe(|| {
-                            let b = if ctor == 1 { construct(&kind2, Ctor::SeedFromU64(k.wrapping_mul(0x2545F4914F6CDD1D))) } else { construct(&kind2, Ctor::FromSeed(&seed2)) };
-                            if let Built::Ok(mut g) = b {
-                                for _ in 0..outs {
-                                    let _ = g.next_u32();
-                                    let _ = g.next_u64();
-                                }
-                                let mut buf = [0u8; 37];
-                                let _ = g.fill_bytes(&mut buf);
-                                let _ = g.generate();
-                                let _ = g.jump();
-                                let _ = g.next_u64();
+                let threads = op.get("threads").and_then(|v| v.as_u64()).unwrap_or(1).max(1);
+                let quiet = threads > 1;      // many panics on many threads: keep the panic hook's bookkeeping out of the way
+                let _ = quiet;
+                let mut handles = Vec::new();
+                for t in 0..threads {
+                    let kind = kind.clone();
+                    handles.push(std::thread::spawn(move || {
+                        let mut found: Vec<Value> = Vec::new();
+                        let mut k = t;
+                        while k < n {
+                            if found.len() >= 4 {
+                                break;
                             }
-                        }));
-                        if r.is_err() {
-                            let _ = LAST_PANIC_AT.lock().unwrap().take();
-                            found.push(json!({"k": k, "stage": stage, "seed": seed2,
-                                              "x": u64j(k.wrapping_mul(0x2545F4914F6CDD1D))}));
+                            let mut seed = vec![0u8; len];
+                            let kb = k.to_le_bytes();
+                            let m = len.min(8);
+                            seed[..m].copy_from_slice(&kb[..m]);
+                            for (stage, ctor) in [("from_seed", 0u8), ("seed_from_u64", 1u8), ("from_seed_spread", 2u8)] {
+                                let kind2 = kind.clone();
+                                let seed2: Vec<u8> = if ctor == 2 {
+                                    // the counter spread over the whole seed with an LCG: dense seeds
+                                    let mut x = k.wrapping_mul(0x9E3779B97F4A7C15) | 1;
+                                    (0..len).map(|_| { x = x.wrapping_mul(6364136223846793005).wrapping_add(1442695040888963407); (x >> 56) as u8 }).collect()
+                                } else {
+                                    seed.clone()
+                                };
+                                let r = catch_unwind(AssertUnwindSafe(|| {
+                                    let b = if ctor == 1 { construct(&kind2, Ctor::SeedFromU64(k.wrapping_mul(0x2545F4914F6CDD1D))) } else { construct(&kind2, Ctor::FromSeed(&seed2)) };
+                                    if let Built::Ok(mut g) = b {
+                                        for _ in 0..outs {
+                                            let _ = g.next_u32();
+                                            let _ = g.next_u64();
+                                        }
+                                        let mut buf = [0u8; 37];
+                                        let _ = g.fill_bytes(&mut buf);
+                                        let _ = g.generate();
+                                        let _ = g.jump();
+                                        let _ = g.next_u64();
+                                    }
+                                }));
+                                if r.is_err() {
+                                    let _ = LAST_PANIC_AT.lock().unwrap().take();
+                                    found.push(json!({"k": k, "stage": stage, "seed": seed2,
+                                                      "x": u64j(k.wrapping_mul(0x2545F4914F6CDD1D))}));
+                                }
+                            }
+                            k += threads;
+                        }
+                        found
+                    }));
+                }
+                let mut found: Vec<Value> = Vec::new();
+                for h in handles {
+                    for f in h.join().expect("panic_scan thread") {
+                        if found.len() < 6 {
+                            found.push(f);
                         }
                     }
                 }
@@ -508,7 +538,16 @@ impl Exec {
             // ---- jitter ----
             "timer" => {
                 let t = get_u64(op, "t");
-                let rd: Vec<u64> = op["readings"].as_array().unwrap().iter().map(limbs_to_u64).collect();
+                let mut rd: Vec<u64> = op["readings"].as_array().unwrap().iter().map(limbs_to_u64).collect();
+                // "stall": {"at": k, "count": n} - the clock stands still: reading k-1 is repeated n more times
+                if let Some(st) = op.get("stall") {
+                    let at = st["at"].as_u64().unwrap() as usize;
+                    let n = st["count"].as_u64().unwrap() as usize;
+                    let v = rd[at - 1];
+                    let tail = rd.split_off(at);
+                    rd.extend(std::iter::repeat(v).take(n));
+                    rd.extend(tail);
+                }
                 let cont: Vec<u64> = op
                     .get("cont")
                     .and_then(|v| v.as_array())
@@ -727,6 +766,41 @@ impl Exec {
                         out.push(("ok".into(), json!(true)));
                     }
                     Err(e) => out.push(("err".into(), json!(format!("{:?}", e)))),
+                }
+            }
+            "jit_std_new_parallel" => {
+                // many threads call JitterRng::new() at the same moment (meant as the first calls in the process: the
+                // process-wide rounds cache is still empty); a panic in any of them is this operation's panic
+                let n = op.get("threads").and_then(|v| v.as_u64()).unwrap_or(8) as usize;
+                let barrier = Arc::new(std::sync::Barrier::new(n));
+                let hs: Vec<_> = (0..n)
+                    .map(|_| {
+                        let b = barrier.clone();
+                        std::thread::spawn(move || {
+                            b.wait();
+                            match rand_jitter::JitterRng::new() {
+                                Ok(mut r) => {
+                                    use rand_core::RngCore;
+                                    let _ = r.next_u64();
+                                    true
+                                }
+                                Err(_) => false,
+                            }
+                        })
+                    })
+                    .collect();
+                let mut oks = 0;
+                let mut panics = 0;
+                for h in hs {
+                    match h.join() {
+                        Ok(true) => oks += 1,
+                        Ok(false) => {}
+                        Err(_) => panics += 1,
+                    }
+                }
+                out.push(("ok_count".into(), json!(oks)));
+                if panics > 0 {
+                    panic!("{} of {} threads calling JitterRng::new() at once panicked", panics, n);
                 }
             }
             // ---- background load for C19 ----
